@@ -45,6 +45,8 @@ def generate(ctx):
 
 def correspond(ctx):
     _pool.explore(ctx, "C01", per_spec=10 if not ctx.thorough else 60, sizes=(4, 11) if not ctx.thorough else (4, 24))
+    # strategies with their own selection loops at the end of a run on a larger pool (quotas per cluster / leaf redistributed)
+    _pool.explore(ctx, "C01", per_spec=30 if not ctx.thorough else 150, sizes=(12, 30), endgame=True, skeleton="B")
     _zoo_pool.run(ctx, "C01", [ctx.seed] if not ctx.thorough else [ctx.seed + 31 * k for k in range(4)], per_case_modes=None if ctx.thorough else 2)
 
 
